@@ -14,8 +14,8 @@ RULE = (
     "and a multi-input gate; distinct = canonical circuit + probed node + endpoints"
 )
 BUDGET = {
-    "quick": {"workers": 16, "cases": 60, "secs": 50, "min_cases": 500},
-    "thorough": {"workers": 16, "rounds": 4, "cases": 220, "secs": 280, "min_cases": 4000},
+    "quick": {"workers": 16, "cases": 90, "secs": 60, "min_cases": 720},
+    "thorough": {"workers": 16, "rounds": 4, "cases": 260, "secs": 420, "min_cases": 8320},
 }
 ANCHORS = ["tx:sensitization_transform", "tx:sensitivity_transform", "props:sensitivity", "props:influence", "props:avg_sensitivity", "props:sensitize"]
 
